@@ -707,3 +707,76 @@ func stageTailClosed(c *Ctx, name string, fd *FuncDecl, f *FuncCFG, after token.
 		c.OK(key, c.P.Pos(persist.Pos()), "nothing after the marker-removing persist writes to the store")
 	}
 }
+
+// gc-keeps-startup-page: HeaderHashes.init unconditionally loads the last complete page of header hashes
+// (GetHeaderHashes(storedHeaderCount - batch)) when the node starts. Whatever deletes pages of that key space on disk
+// (SeekGC over IXHeaderHashList) must therefore bound itself by the current header height, not only by the
+// traceability index it was given: with MaxTraceableBlocks below the page size the index passes the last complete page.
+func ruleGCKeepsStartupPage(c *Ctx) {
+	const symGC, symPfx, symHH = "pkg/core/storage.(Store).SeekGC", "pkg/core/storage.IXHeaderHashList", "pkg/core.(*HeaderHashes).HeaderHeight"
+	// the reader: init loads a page
+	if fd := c.P.Func("pkg/core", "HeaderHashes", "init"); fd != nil {
+		f := c.P.NewFuncCFG(fd)
+		if len(f.CallSites("pkg/core/dao.(*Simple).GetHeaderHashes")) == 0 {
+			c.Lost("reader", "HeaderHashes.init no longer loads a page of header hashes: the rule's premise is gone")
+		}
+	} else {
+		c.Lost("reader", "HeaderHashes.init not found")
+	}
+	n := 0
+	for _, fd := range c.P.AllFuncDecls() {
+		if fd.Decl.Body == nil || pkgRel(fd.Obj.Pkg()) != "pkg/core" {
+			continue
+		}
+		f := c.P.NewFuncCFG(fd)
+		for _, s := range f.CallSites(symGC) {
+			if len(s.call.Args) != 2 || !f.Mentions(s.call.Args[0], s.blk)[symPfx] {
+				continue
+			}
+			lit, ok := ast.Unparen(s.call.Args[1]).(*ast.FuncLit)
+			if !ok {
+				continue
+			}
+			n++
+			key := FuncKey(fd.Obj) + ".page-bound"
+			// the captured variables the callback compares page numbers with
+			bounded := false
+			var boundNames []string
+			ast.Inspect(lit.Body, func(x ast.Node) bool {
+				be, ok := x.(*ast.BinaryExpr)
+				if !ok {
+					return true
+				}
+				switch be.Op {
+				case token.LSS, token.LEQ, token.GTR, token.GEQ:
+				default:
+					return true
+				}
+				for _, side := range []ast.Expr{be.X, be.Y} {
+					ast.Inspect(side, func(y ast.Node) bool {
+						id, ok := y.(*ast.Ident)
+						if !ok {
+							return true
+						}
+						v, ok := f.Info.ObjectOf(id).(*types.Var)
+						if !ok || v.IsField() || v.Pos() >= lit.Pos() { // declared inside the callback: not a captured bound
+							return true
+						}
+						boundNames = append(boundNames, v.Name())
+						if f.Mentions(id, s.blk)[symHH] {
+							bounded = true
+						}
+						return true
+					})
+				}
+				return true
+			})
+			if bounded {
+				c.OK(key, c.P.Pos(s.call.Pos()), "the page bound of the header-hash collector depends on the current header height: the page start-up loads is kept")
+			} else {
+				c.Fail(key, c.P.Pos(s.call.Pos()), fmt.Sprintf("%s deletes header-hash pages on disk up to a bound (%s) that does not depend on the current header height, while HeaderHashes.init loads the last complete page unconditionally: with MaxTraceableBlocks below the page size a cleanly stopped node does not start ('failed to retrieve header hash page')", FuncKey(fd.Obj), strings.Join(boundNames, ", ")))
+			}
+		}
+	}
+	c.Floor("on-disk collectors of header-hash pages", n, 1)
+}
